@@ -1,12 +1,12 @@
 import Spydr.IR.Sep
 namespace Spydr.IR
 
-macro "sep_tac" : tactic => `(tactic| (constructor <;> grind [mem_insertAt, isReorder_iff, PinRef.above, optAbove, pinIn_some, pinIn_none, List.filter_eq_self]))
+macro "sep_tac" : tactic => `(tactic| (constructor <;> grind [mem_insertAt, isReorder_iff, PinRef.inR, optIn, pinIn_some, pinIn_none, List.filter_eq_self]))
 
 macro "sep_op" : tactic => `(tactic| (
   intro hb ho
   obtain ⟨b1,b2,b3,b4,b5,b6,b7,b8,b9,b10,b11,b12,b13,b14,b15,b16,b17,b18,b19,b20,b21,b22⟩ := hb
-  simp only [Op.above] at ho
+  simp only [Op.inside] at ho
   simp only [step]
   repeat' split
   all_goals first
